@@ -22,6 +22,7 @@ import numpy as np
 import concurrent.futures as _cf
 
 from sim.kernel import Sim, make_policy, StepCap, Deadlock
+from sim.linepreempt import LinePreempt, periodic_points
 from sim.executors import (SimPoolBase, SimThreadPool, SimProcessPool,
                            sim_as_completed, sim_wait)
 from sim.runner import new_result, scratch_root
@@ -237,6 +238,14 @@ def gen_workload(tape):
         ops.append(o)
     w["ops"] = ops
     w["prepopulate"] = tape.flag("prepopulate", 1, 3) if w["config"] == "io" else False
+    # how the cache directory is found: preset module attribute, or resolved by
+    # typhon itself from the environment on the first access of the process
+    w["datapath_via"] = tape.pick(["preset", "preset", "TYPHON_DATA_PATH",
+                                   "XDG_CACHE_HOME"], "dpv")
+    # two caller threads on a completely warm cache: no download may happen
+    w["two_callers"] = w["config"] == "fast" and tape.flag("two_callers", 1, 5)
+    w["line_stride"] = 5 + tape.choice(30, "linestride") if w["two_callers"] else 0
+    w["store_stride"] = 1 + tape.choice(3, "storestride") if w["two_callers"] else 0
     return w
 
 
@@ -305,8 +314,16 @@ def run_one(tape, only=None):
     w = gen_workload(tape)
     tmod, SRTM30 = _T["tmod"], _T["SRTM30"]
     root = fresh_dir(scratch_root(), "c20")
-    cache = os.path.join(root, "cache")
-    os.makedirs(cache)
+    env = {}
+    if w["datapath_via"] == "TYPHON_DATA_PATH":
+        env["TYPHON_DATA_PATH"] = os.path.join(root, "data")
+        cache = os.path.join(root, "data", "topography")
+        os.makedirs(env["TYPHON_DATA_PATH"])
+    elif w["datapath_via"] == "XDG_CACHE_HOME":
+        env["XDG_CACHE_HOME"] = cache = os.path.join(root, "xdg")
+    else:
+        cache = os.path.join(root, "cache")
+        os.makedirs(cache)
     V, probes, outcomes = [], {}, []
     faults = {}
     nontrivial = 0
@@ -317,16 +334,24 @@ def run_one(tape, only=None):
         probes[k] = probes.get(k, 0) + 1
 
     def fast_get_tile(name):
-        dem_file = os.path.join(cache, (name + ".dem").upper())
+        # as SRTM30.get_tile: the cache directory is the one typhon resolves
+        dem_file = os.path.join(tmod._get_data_path(), (name + ".dem").upper())
         if not os.path.exists(dem_file):
             fast_download(name)
         return LazyTile(name)
 
     def fast_download(name):
         fast_log.append(name)
-        open(os.path.join(cache, (name + ".dem").upper()), "wb").close()
+        open(os.path.join(tmod._get_data_path(), (name + ".dem").upper()), "wb").close()
 
-    seams = [(tmod, "_data_path", cache)]
+    def listing():
+        return set(os.listdir(cache)) if os.path.isdir(cache) else set()
+
+    if w["datapath_via"] == "preset":
+        seams = [(tmod, "_data_path", cache)]
+    else:
+        probe("cache_directory_resolved_by_typhon")
+        seams = [(tmod, "_data_path", None), (tmod, "environ", env)]
     # typhon.topography has no concurrency today. Should it ever fetch tiles
     # in a pool, the pool must be the simulator's: route the usual names
     # (module-level imports in topography and concurrent.futures itself).
@@ -349,13 +374,37 @@ def run_one(tape, only=None):
             warnings.simplefilter("ignore")
             if w["prepopulate"]:
                 name = list(_T["tiles"])[12]
+                os.makedirs(cache, exist_ok=True)
                 with zipfile.ZipFile(io.BytesIO(io_tile_bytes(name))) as z:
                     z.extractall(cache)
+            if w["two_callers"]:
+                os.makedirs(cache, exist_ok=True)
+                for name in _T["tiles"]:
+                    open(os.path.join(cache, (name + ".dem").upper()), "wb").close()
+                probe("two_caller_threads_on_warm_cache")
+                sim.line_preempt = LinePreempt(
+                    sim, [tmod],
+                    periodic_points(1 + w["line_stride"] % 7, w["line_stride"], 300),
+                    only="caller",
+                    store_points=periodic_points(1, w["store_stride"], 300))
             state = {"had_fault": False, "nontrivial": 0}
 
             def main():
-                for oi, o in enumerate(w["ops"]):
-                    present_before = set(os.listdir(cache))
+                if not w["two_callers"]:
+                    return run_ops(range(len(w["ops"])))
+                a = sim.spawn("caller0", run_ops, range(0, len(w["ops"]), 2))
+                b = sim.spawn("caller1", run_ops, range(1, len(w["ops"]), 2))
+                sim.block_until(lambda: a.done and b.done, "join")
+                for t in (a, b):
+                    if t.exc is not None:
+                        raise t.exc
+
+            def run_ops(which):
+                for oi in which:
+                    o = w["ops"][oi]
+                    if w["two_callers"]:
+                        sim.yield_(f"op{oi}")
+                    present_before = listing()
                     log_before = len(net.log) + len(fast_log)
                     if w["config"] == "io":
                         net.mode, net.k = o["net"], o["net_k"]
